@@ -36,10 +36,12 @@ where
     }
     #[inline]
     fn on_save<'parse>(&self, _: &Cursor<'src, 'parse, I>) -> Self::Checkpoint {
+        hook::inspector_event();
         (self.n, self.h)
     }
     #[inline]
     fn on_rewind<'parse>(&mut self, m: &Checkpoint<'src, 'parse, I, Self::Checkpoint>) {
+        hook::inspector_event();
         let (n, h) = *m.inspector();
         self.n = n;
         self.h = h;
